@@ -255,7 +255,7 @@ class Injector:
         }
 
 
-def _child(wfd, root, argv, cwd, kspec, inject, env, pre, post, want_events):
+def _child(wfd, root, argv, cwd, kspec, inject, env, pre, post, want_events, after_main=None):
     """Runs in the forked child.  Never returns."""
     res = {"status": None, "uncaught": None}
     sent = [False]
@@ -349,6 +349,8 @@ def _child(wfd, root, argv, cwd, kspec, inject, env, pre, post, want_events):
             try:
                 cm.main()
             finally:
+                if after_main is not None:
+                    after_main()
                 if inj is not None:
                     sys.setprofile(None)
                     sys.settrace(None)
